@@ -85,6 +85,16 @@ CLAIMED = {
             '(case split); prune/close postconditions verified for 0..4 handles (bounded, reported separately); FastqHandle.write '
             'per-cell routing: see C01.',
             '5/C19, appendix B.4'),
+    'C16': ('Unbounded: FeatureContainer.addFeature, for any container state and any memoised earlier lookups, appends exactly '
+            'the feature, marks the index stale and leaves no memoised answer of the earlier state (lru_cache as ghost memo '
+            'table) - the clause that makes "a result never reflects a stale earlier state" hold for every operation history. '
+            'Exactness of point and range lookups (all optim variants) and add/sort/query/add/sort/query histories are checked '
+            'by symbolic execution of the real methods for 1-2 (thorough: 3) features with symbolic coordinates and strands: '
+            'bounded stand-ins, reported separately and NOT counted as proved.',
+            'numpy searchsorted/argsort/fromiter/max modelled per the NumPy reference for fixed-length arrays; lru_cache eviction '
+            'not modelled; completeness/soundness of lookups for arbitrary feature counts is not proved (bounded only); '
+            'findFeaturesAtPysamAlign and GTF loading not under contract.',
+            '5/C16'),
 }
 
 NOT_YET = 'check not built yet (framework under construction; see DESIGN.md section 5)'
